@@ -447,3 +447,56 @@ func TestD21_Roaring32AsRoaring64Empty(t *testing.T) {
 		t.Fatalf("not Equal to the empty bitmap")
 	}
 }
+
+// #22 C11/C12/C17: ParOr splits the key range into 4*parallelism chunks; when the highest key is the last
+// key of the universe and the grid overshoots, a chunk start beyond it is truncated (uint16 / uint32) and
+// wraps to a small key: that chunk covers the whole range again and every container is appended twice.
+func TestD22_ParOrChunkStartWraps(t *testing.T) {
+	a := roaring.BitmapOf((0xFFFF-5)<<16 | 1)
+	b := roaring.BitmapOf(0xFFFFFFFF)
+	want := roaring.Or(a, b)
+	for _, par := range []int{1, 2, 3, 4} {
+		got := roaring.ParOr(par, a, b)
+		if !got.Equals(want) || got.GetCardinality() != 2 {
+			t.Fatalf("ParOr(%d): cardinality %d, values %v; want %v", par, got.GetCardinality(), got.ToArray(), want.ToArray())
+		}
+	}
+	a64, b64 := roaring64.New(), roaring64.New()
+	a64.Add((0xFFFFFFFF - 5) << 32)
+	b64.Add(0xFFFFFFFFFFFFFFFF)
+	want64 := roaring64.Or(a64, b64)
+	for _, par := range []int{1, 2, 3, 4} {
+		got := roaring64.ParOr(par, a64, b64)
+		if !got.Equals(want64) || got.GetCardinality() != 2 {
+			t.Fatalf("roaring64.ParOr(%d): cardinality %d, values %v", par, got.GetCardinality(), got.ToArray())
+		}
+	}
+}
+
+// #23 C15: the error tests on safeMaximum / safeMinimum in NextAbsentValue / PreviousAbsentValue were
+// inverted: a walk that reached the upper (lower) edge of the last (first) chunk always returned -1.
+func TestD23_AbsentValueAtTheEdgeOfTheLastChunk(t *testing.T) {
+	if got := roaring.BitmapOf(65535).NextAbsentValue(65535); got != 65536 {
+		t.Fatalf("NextAbsentValue(65535) on {65535} = %d, want 65536", got)
+	}
+	full := roaring.New()
+	full.AddRange(0, 65536)
+	if got := full.NextAbsentValue(0); got != 65536 {
+		t.Fatalf("NextAbsentValue(0) on [0,65536) = %d, want 65536", got)
+	}
+	top := roaring.New()
+	top.AddRange(0xFFFF0000, 0x100000000)
+	if got := top.NextAbsentValue(0xFFFF0005); got != -1 {
+		t.Fatalf("NextAbsentValue inside the full last chunk of the universe = %d, want -1", got)
+	}
+	second := roaring.New()
+	second.AddRange(65536, 65536+100)
+	if got := second.PreviousAbsentValue(65536 + 50); got != 65535 {
+		t.Fatalf("PreviousAbsentValue(65586) on [65536,65636) = %d, want 65535", got)
+	}
+	zero := roaring.New()
+	zero.AddRange(0, 100)
+	if got := zero.PreviousAbsentValue(50); got != -1 {
+		t.Fatalf("PreviousAbsentValue(50) on [0,100) = %d, want -1", got)
+	}
+}
